@@ -137,9 +137,15 @@ func (allowAuthorizer) Authorize(ctx context.Context, instanceNames []digest.Ins
 type counterUUIDs struct {
 	mu sync.Mutex
 	n  uint32
+	w  *world
 }
 
 func (g *counterUUIDs) next() (uuid.UUID, error) {
+	// Operation names are generated while the scheduler holds its lock:
+	// a lock-held injection point.
+	if g.w != nil {
+		g.w.injectUnderLock()
+	}
 	g.mu.Lock()
 	defer g.mu.Unlock()
 	g.n++
